@@ -15,6 +15,10 @@ Inductive xrow (F : Type) := XPt (v : vec3 F) | XNan.
 Arguments XPt {F} _.
 Arguments XNan {F}.
 
+(* a returned polyline: its vertex rows and its is_closed flag *)
+Record sliced (F : Type) := MkSliced { s_rows : list (xrow F); s_closed : bool }.
+Arguments MkSliced {F}. Arguments s_rows {F}. Arguments s_closed {F}.
+
 (* last element, if any (arr[-1]) *)
 Fixpoint olast {A} (l : list A) : option A :=
   match l with
@@ -141,7 +145,10 @@ Section Slice.
   Definition slice_open (pl : plane F) (vs : list (vec3 F)) : result (list (xrow F)) :=
     slice_core (plane_sign O pl) XPt (crossing_row pl) vs.
 
-  (* Polyline.sliced_by_plane(plane).v ; the result is always an open polyline *)
+  (* the vertex rows of Polyline.sliced_by_plane(plane) *)
   Definition sliced_by_plane (pl : plane F) (p : polyline F) : result (list (xrow F)) :=
     slice_any (plane_sign O pl) XPt (crossing_row pl) (pclosed p) (pv p).
+  (* the value it returns: `Polyline(v=slice_open_polyline_by_plane(working_v, plane), is_closed=False)` *)
+  Definition sliced_polyline (pl : plane F) (p : polyline F) : result (sliced F) :=
+    rbind (sliced_by_plane pl p) (fun rows => Ok (MkSliced rows false)).
 End Slice.
